@@ -88,7 +88,11 @@ def generate_source_code(docstring, parsed):
         refs = [Ref(x.name) for x in ignored]
 
         if super_has_ignore:
-            refs.append(Ref('_super_ctx._ignored'))
+            # The parent's "_ignored" rule always succeeds, so wrap it in Opt to
+            # make Skip check for progress before going around again.
+            inherited = Ref('super._ignored')
+            inherited._resolved = '_super_ctx.' + ex.implementation_name('_ignored')
+            refs.append(ex.Opt(inherited))
 
         rules.append(ex.Rule('_ignored', None, ex.Skip(*refs), 'ignored'))
 
